@@ -9,13 +9,18 @@
 
     [y : nat -> vec] is the trajectory sampled every [step_size]; the ODE solver itself is not
     modelled (it is validated by the correspondence check and the oracle of harness/c15.py).
+    [ss_run_s F tol rel y0 y ok] is the loop on the buffers [y] the solver returned with the
+    flags [ok (S i)] = [integ.successful()] after step [i]; [ss_run] is the same with every step
+    successful ([C15_successful_integration_run]).  [C15_expected_succ] (ExpectedFacts.v) says
+    whether the tree tests that flag (SuccChecked, after fixes/C15-integrator-failure.diff) or not
+    (SuccUnchecked, the snapshot: recorded finding c15-integrator-failure-unchecked).
     Theorems that mention [R], [norm2], [Q2R] use Coq.Reals (classical real-number axioms). *)
 From Coq Require Import Reals QArith Qreals Qabs ZArith NArith List Bool.
 Import ListNotations.
-From Steady Require Import SteadyLoop GenSteadyFacts SteadyLoopProofs Relax SteadyProps.
+From Steady Require Import SteadyLoop GenSteadyFacts ExpectedFacts SteadyLoopProofs SteadyHistProofs Relax SteadyProps.
 
 Theorem C15_facts_pinned :
-  gen_ss_facts = mkSSFacts 100%Z 1000%N CmpLt NormL2 PrevCopy RelDivPrev ExhaustFail true
+  gen_ss_facts = mkSSFacts 100%Z 1000%N CmpLt NormL2 PrevCopy RelDivPrev ExhaustFail C15_expected_succ true
   /\ gen_plumb_facts = mkPlumb true true (4722366482869645 # 4722366482869645213696)%Q.
 Proof. split; vm_compute; reflexivity. Qed.
 Print Assumptions C15_facts_pinned.
@@ -137,7 +142,7 @@ Print Assumptions C15_rel_accumulation_refuted.
 Theorem C15_alias_refuted :
   forall (tol : Q) (y : nat -> vec),
     (0 < tol)%Q -> (forall n, length (y n) = length (y 0%nat)) ->
-    let F := mkSSFacts 100%Z 1000%N CmpLt NormL2 PrevAlias RelDivPrev ExhaustFail true in
+    let F := mkSSFacts 100%Z 1000%N CmpLt NormL2 PrevAlias RelDivPrev ExhaustFail SuccUnchecked true in
     (exists t, ss_run F tol false (y 0%nat) y = SSSteady t (y 1%nat) /\ (t == inject_Z 100)%Q)
     \/ (exists t, ss_run F tol false (y 0%nat) y = SSSteady t (y 2%nat) /\ (t == inject_Z 200)%Q).
 Proof. exact p_alias_refuted. Qed.
@@ -159,6 +164,136 @@ Theorem C15_failure_propagates :
          steady_state_row gen_plumb_facts gen_ss_facts rel y0 y = Some (RowValues v)).
 Proof. exact (p_plumbing C15_facts_pinned). Qed.
 Print Assumptions C15_failure_propagates.
+
+
+(** ** integration steps that fail
+
+    the model of the code on runs whose integration steps all succeed is [ss_run], the subject of
+    the theorems above (whatever the tree does with the flag) *)
+Theorem C15_successful_integration_run :
+  forall (tol : Q) (rel : bool) (y0 : vec) (y : nat -> vec) (ok : nat -> bool),
+    (forall n, ok n = true) ->
+    ss_run_s gen_ss_facts tol rel y0 y ok = ss_run gen_ss_facts tol rel y0 y.
+Proof. exact p_all_ok_run. Qed.
+Print Assumptions C15_successful_integration_run.
+
+(** FULL statement for failing integrators -- "a state is reported steady only if every integration
+    step up to it succeeded; a step that fails before convergence yields the failure value" --
+    holds of the loop WITH the test of integ.successful() (fixes/C15-integrator-failure.diff;
+    the tree's loop when C15_expected_succ = SuccChecked) *)
+Theorem C15_integrator_failure_reported :
+  forall (tol : Q) (rel : bool) (y : nat -> vec) (ok : nat -> bool),
+    (forall n, length (y n) = length (y 0%nat)) ->
+    let F := mkSSFacts 100%Z 1000%N CmpLt NormL2 PrevCopy RelDivPrev ExhaustFail SuccChecked true in
+    let c n := conv F tol rel (y n) (y (S n)) in
+    (forall t v, ss_run_s F tol rel (y 0%nat) y ok = SSSteady t v ->
+       exists n, (n < 1000)%nat /\ c n = true /\ (forall m, (m <= n)%nat -> ok (S m) = true)
+                 /\ (forall m, (m < n)%nat -> c m = false)
+                 /\ (t == inject_Z (100 * Z.of_nat (S n)))%Q /\ v = y (S n))
+    /\ (ss_run_s F tol rel (y 0%nat) y ok = SSIntegFail
+        <-> exists n, (n < 1000)%nat /\ ok (S n) = false
+                      /\ (forall m, (m < n)%nat -> ok (S m) = true /\ c m = false))
+    /\ (ss_run_s F tol rel (y 0%nat) y ok = SSNoSteady
+        <-> forall m, (m < 1000)%nat -> ok (S m) = true /\ c m = false)
+    /\ ss_run_s F tol rel (y 0%nat) y ok <> SSShape
+    /\ ss_run_s F tol rel (y 0%nat) y ok <> SSUnknownFacts.
+Proof. exact p_integrator_failure_reported. Qed.
+Print Assumptions C15_integrator_failure_reported.
+
+(** ... and is FALSE of the loop without that test (the tree's loop when C15_expected_succ =
+    SuccUnchecked): a solver that fails in step f and keeps returning the state where it got stuck
+    is reported STEADY one step later, whatever the positive tolerance (absolute norm) *)
+Theorem C15_unchecked_failure_refuted :
+  (forall (tol : Q) (y : nat -> vec) (ok : nat -> bool) (f : nat),
+     (0 < tol)%Q -> (forall n, length (y n) = length (y 0%nat)) -> (f < 999)%nat ->
+     let F := mkSSFacts 100%Z 1000%N CmpLt NormL2 PrevCopy RelDivPrev ExhaustFail SuccUnchecked true in
+     (forall m, (m <= f)%nat -> conv F tol false (y m) (y (S m)) = false) ->
+     ok (S f) = false -> y (S (S f)) = y (S f) ->
+     exists t, ss_run_s F tol false (y 0%nat) y ok = SSSteady t (y (S f))
+               /\ (t == inject_Z (100 * Z.of_nat (S (S f))))%Q)
+  /\ (exists (tol : Q) (y : nat -> vec) (ok : nat -> bool),
+        ok 1%nat = false
+        /\ ss_run_s (mkSSFacts 100%Z 1000%N CmpLt NormL2 PrevCopy RelDivPrev ExhaustFail SuccUnchecked true)
+                    tol false (y 0%nat) y ok = SSSteady 200 [5%Q]
+        /\ ss_run_s (mkSSFacts 100%Z 1000%N CmpLt NormL2 PrevCopy RelDivPrev ExhaustFail SuccChecked true)
+                    tol false (y 0%nat) y ok = SSIntegFail).
+Proof.
+  exact (conj p_unchecked_stuck
+           (ex_intro _ (1 # 1000000)%Q (ex_intro _ stuck_traj (ex_intro _ stuck_ok unchecked_witness)))).
+Qed.
+Print Assumptions C15_unchecked_failure_refuted.
+
+(** ** histories of one Simulator: simulate / simulate_time_course / simulate_to_steady_state in any
+    order and number, then get_result.  [OpSimulate r] / [OpSteady r] carry what the integrator
+    returned in that call (external behaviour); [op_failure] is the failure value in it, if any.
+
+    get_result after ANY history: the FIRST failure if any step failed, else all rows *)
+Theorem C15_history_result :
+  forall ops : list sim_op, Forall op_modelled ops ->
+    hist_result gen_plumb_facts ops
+    = Some match first_failure ops with
+           | Some e => RError e
+           | None => match hist_rows None ops with
+                     | Some l => RSimulation l
+                     | None => RError EIntegrationFailure
+                     end
+           end.
+Proof. exact (p_history_result C15_facts_pinned). Qed.
+Print Assumptions C15_history_result.
+
+(** a failure of ANY step makes get_result a failure value (and the scan row NaN) *)
+Theorem C15_failure_propagates_history :
+  forall (ops : list sim_op) (op : sim_op) (e : sim_error),
+    Forall op_modelled ops -> In op ops -> op_failure op = Some e ->
+    exists e', hist_result gen_plumb_facts ops = Some (RError e') /\ worker_row (RError e') = RowNaN.
+Proof. exact (p_history_any_failure C15_facts_pinned). Qed.
+Print Assumptions C15_failure_propagates_history.
+
+(** a steady-state search that fails after successful simulations is reported with its own failure
+    value, whatever follows *)
+Theorem C15_failed_search_after_simulation :
+  forall (pre post : list sim_op) (r : ss_out) (e : sim_error),
+    Forall op_modelled (pre ++ OpSteady r :: post) ->
+    first_failure pre = None -> op_failure (OpSteady r) = Some e ->
+    hist_result gen_plumb_facts (pre ++ OpSteady r :: post) = Some (RError e).
+Proof. exact (p_history_failed_search C15_facts_pinned). Qed.
+Print Assumptions C15_failed_search_after_simulation.
+
+(** a history ending with a steady-state search is a success ONLY IF that search succeeded, and then
+    its last row (what callers and the scan worker read as the steady state) is the state the search
+    reported: an earlier state is never presented as steady *)
+Theorem C15_success_is_the_search_result :
+  forall (pre : list sim_op) (r : ss_out) (l : list (Q * vec)),
+    Forall op_modelled (pre ++ [OpSteady r]) ->
+    hist_result gen_plumb_facts (pre ++ [OpSteady r]) = Some (RSimulation l) ->
+    exists t v l', r = SSSteady t v /\ l = l' ++ [(t, v)] /\ first_failure pre = None
+                   /\ worker_row (RSimulation l) = RowValues v.
+Proof. exact (p_history_success_last C15_facts_pinned). Qed.
+Print Assumptions C15_success_is_the_search_result.
+
+(** end to end: unbounded linear accumulation searched after any successful simulations *)
+Theorem C15_accumulation_after_simulation_fails :
+  forall (pre : list sim_op) (tol : Q) (y0 c : vec) (k : nat),
+    Forall op_modelled pre -> first_failure pre = None ->
+    length c = length y0 -> (tol <= Qabs (nth k c 0))%Q ->
+    hist_result gen_plumb_facts
+      (pre ++ [OpSteady (ss_run gen_ss_facts tol false (traj_fun (TrajLin y0 c) 0%nat) (traj_fun (TrajLin y0 c)))])
+    = Some (RError ENoSteadyState).
+Proof. exact (p_accumulation_after_simulation C15_facts_pinned). Qed.
+Print Assumptions C15_accumulation_after_simulation_fails.
+
+(** non-vacuity of the history theorems *)
+Example C15_history_nonvacuous :
+  Forall op_modelled demo_hist
+  /\ hist_result gen_plumb_facts demo_hist = Some (RError ENoSteadyState)
+  /\ hist_result gen_plumb_facts demo_hist_ok = Some (RSimulation [(0, [1%Q]); (10, [2%Q]); (300, [3%Q])]).
+Proof.
+  exact (conj demo_hist_modelled
+           (eq_ind_r (fun P => hist_result P demo_hist = Some (RError ENoSteadyState)
+                               /\ hist_result P demo_hist_ok = Some (RSimulation [(0, [1%Q]); (10, [2%Q]); (300, [3%Q])]))
+                     (conj demo_hist_result demo_hist_ok_result) (proj2 C15_facts_pinned))).
+Qed.
+Print Assumptions C15_history_nonvacuous.
 
 (** non-vacuity: y n = 3 - 2 (1/2)^n meets the hypotheses of [C15_distance_bound] and the loop
     reports it steady at t = 800 with tolerance 1/100 *)
